@@ -1,8 +1,9 @@
 /- Line-protocol driver for C17 (tab-separated fields). One record = one dumped real graph:
    begin <id> / site n s / cinstr c i / out s d idx / in d s idx / callee n S / callsite S site n /
-   closure c S / referring S instr c / access node S global isWrite / constructed S / read g node / write g node / end
-   -> res <id> inv= edges= calls= closures= globals= maps= single= index= nodes… (+ first offending items)      -/
+   closure c S / referring S instr c / owncall n / ownclosure c / access node S global isWrite / constructed S / read g node / write g node / end
+   -> res <id> inv= edges= calls= closures= globals= maps= single= index= nodes… convc= staleRef= staleSite= orphanRef= orphanSite= (+ first offending items)      -/
 import Argot.Model.SGraph
+import Argot.Model.SGraphConv
 open Argot.SGraph
 
 structure PAcc where
@@ -19,6 +20,8 @@ structure PAcc where
   writeR : Array (Nat × Nat) := #[]
   outR : Array (Nat × Nat × Int) := #[]
   innR : Array (Nat × Nat × Int) := #[]
+  ownCallR : Array Nat := #[]
+  ownClosR : Array Nat := #[]
   bad : Bool := false
 
 def setAt (a : Array Nat) (i v : Nat) : Array Nat :=
@@ -55,8 +58,15 @@ def finish (a : PAcc) : String :=
   let badCallee := (st.calleeSummary.filter fun p => !(st.callsites.contains (p.2, σ.site p.1, p.1))).take 3
   let badSite := (st.callsites.filter fun t => !(σ.site t.2.2 = t.2.1 && st.calleeSummary.contains (t.2.2, t.1))).take 3
   let badClos := (st.closureSummary.filter fun p => !(st.referring.contains (p.2, σ.cinstr p.1, p.1))).take 3
-  let d := s!"badOut={badOut.map showT} badIn={badIn.map showT} badIdx={badIdx.map showT} badCallee={badCallee} badSite={badSite} badClos={badClos}"
-  s!"res\t{a.id}\tinv={b (inv σ st)}\tedges={b e}\tcalls={b c}\tclosures={b cl}\tglobals={b g}\tmaps={b m}\tsingle={b si}\tindex={b ix}\tnOut={st.e.out.length}\tnIn={st.e.inn.length}\tnCallee={st.calleeSummary.length}\tnClosure={st.closureSummary.length}\tnAccess={st.access.length}\tnRead={st.readLoc.length}\tnWrite={st.writeLoc.length}\t{d}"
+  -- the converse registrations (Model/SGraphConv.lean; theorems in Props/C17Conv.lean)
+  let own : Owned := { calls := a.ownCallR.toList, closures := a.ownClosR.toList }
+  let sRef := staleReferring σ st
+  let sSite := staleCallsites σ st
+  let oRef := orphanReferring own st
+  let oSite := orphanCallsites own st
+  let conv := s!"convc={b (invClosuresConv σ st)}\tstaleRef={sRef.length}\tstaleSite={sSite.length}\torphanRef={oRef.length}\torphanSite={oSite.length}\tnReferring={st.referring.length}\tnCallsite={st.callsites.length}"
+  let d := s!"staleRef={sRef.take 3} staleSite={sSite.take 3} orphanRef={oRef.take 3} orphanSite={oSite.take 3} badOut={badOut.map showT} badIn={badIn.map showT} badIdx={badIdx.map showT} badCallee={badCallee} badSite={badSite} badClos={badClos}"
+  s!"res\t{a.id}\tinv={b (inv σ st)}\tedges={b e}\tcalls={b c}\tclosures={b cl}\tglobals={b g}\tmaps={b m}\tsingle={b si}\tindex={b ix}\tnOut={st.e.out.length}\tnIn={st.e.inn.length}\tnCallee={st.calleeSummary.length}\tnClosure={st.closureSummary.length}\tnAccess={st.access.length}\tnRead={st.readLoc.length}\tnWrite={st.writeLoc.length}\t{conv}\t{d}"
 
 partial def loop (h : IO.FS.Stream) (a : PAcc) : IO Unit := do
   let line ← h.getLine
@@ -103,6 +113,14 @@ partial def loop (h : IO.FS.Stream) (a : PAcc) : IO Unit := do
   | ["access", n, s, g, w] =>
     match nat3 n s g with
     | some (n, s, g) => loop h { a with accessR := a.accessR.push ⟨n, s, g, w == "1"⟩ }
+    | none => loop h { a with bad := true }
+  | ["owncall", n] =>
+    match n.toNat? with
+    | some n => loop h { a with ownCallR := a.ownCallR.push n }
+    | none => loop h { a with bad := true }
+  | ["ownclosure", n] =>
+    match n.toNat? with
+    | some n => loop h { a with ownClosR := a.ownClosR.push n }
     | none => loop h { a with bad := true }
   | ["constructed", s] =>
     match s.toNat? with
